@@ -1271,8 +1271,16 @@ fn check_spec_reserved_keys(key: &[u8], mut value: &[u8]) -> Result<(), Error> {
             #[cfg(feature = "rust-secp256k1")]
             <secp256k1::SecretKey as EnrKeyUnambiguous>::decode_public(&_pubkey_bytes)?;
         }
-        _ => return Ok(()),
+        _ => {
+            // all other values must still be a well-formed RLP item
+            let header = Header::decode(&mut value)?;
+            value.advance(header.payload_length);
+        }
     };
+    // the value must be exactly one RLP item
+    if !value.is_empty() {
+        return Err(Error::InvalidRlpData(DecoderError::UnexpectedLength));
+    }
     Ok(())
 }
 
